@@ -1,5 +1,5 @@
 // SimFS + SimClock: the kernel side of open/read/write/close and time(), simulated.
-// Link-time seam: -static-libstdc++ -Wl,--wrap=fopen64,fopen,fclose,read,write,writev,time
+// Link-time seam: -static-libstdc++ -Wl,--wrap=fopen64,fopen,fclose,read,write,writev,time,open,open64,close
 // so that std::ifstream / std::ofstream inside bxdecay0 (and the driver) go through here.
 // Only paths under the virtual root "/simfs/" are simulated; everything else passes through.
 #pragma once
